@@ -115,6 +115,16 @@ CLAIMED = {
    technique="contract-based deductive verification: VCs from the jaxprs of the captured solve closures and of the real "
              "ValidationLoss.__call__ + z3 lemma over the contracts",
    design_ref="DESIGN.md §5 C19", note=B_NOTE + " i and call_every enumerated (every i < n_iter, call_every 1..3)."),
+ "C20": dict(
+   text="(1) frame obligations: for each of the ~90 functions in the call cone of evaluate/__call__ of the five losses and "
+        "get_batch of the six generators, 'assigns nothing argument-owned' is decided on the AST of /repo (modular: callee "
+        "summaries), any flagged store is replayed by deep-snapshotting the arguments around real calls; (2) mode equivalence: "
+        "the symbolic value of jit(f) and of the primal of value_and_grad(f, has_aux=True) equals that of f for all parameter / "
+        "batch / store values (losses incl. system losses with parameter / observation parts; the six real generators' "
+        "get_batch with symbolic stores, across reshuffles); (3) native argument snapshots in the three modes (bounded, not counted).",
+   technique="contract-based deductive verification: frame (assigns-nothing) obligations by a provenance analysis of the real "
+             "source + jaxpr-level equality obligations between execution modes, ring normalisation + z3",
+   design_ref="DESIGN.md §1.3, §5 C20", note=B_NOTE + " Frame checker assumes library functions return fresh objects; Python-level global state read at trace time is invisible."),
 }
 PENDING_REASON = "check not built yet (framework under construction); will be claimed once its contracts verify"
 NA = {}
